@@ -19,9 +19,9 @@ Two kinds of statements.
     register (`history_ledger2`: entry API, all iterators, drains and consuming iterators dropped or
     forgotten, retain, extend, drop, forget; `history_ledger2_sets` for `V = ()`), through an
     ownership logic (`Proofs/Own.lean`) whose step lemma (`step_ledger2`) holds in ANY world.
-    For histories over several registers (clone, `==`, serde, set algebra) it is stated as
-    `C02_ledger_full` and NOT proved as one theorem (the scratch-register halves of `clone` and
-    `from_iter` are `Ledger2.clone_conserves` / `Ledger2.from_iter_conserves`); there (1) and (2) apply.
+    Over the model's real transition function `step` / `run` and the WHOLE safe operation language
+    with its four registers (clone, `==`, serde, set algebra, bulk construction, `endCase`) it is
+    `run_ledger` / `run_and_drop_ledger` / `step_ledger_sys` (section (3'') at the end of this file).
 -/
 import Micromap.Proofs.SysInv
 import Micromap.Props.C03
@@ -29,6 +29,7 @@ import Micromap.Props.C10
 import Micromap.Props.C12
 import Micromap.Proofs.Ledger
 import Micromap.Proofs.Ledger2
+import Micromap.Proofs.OwnSys
 
 namespace Micromap.Props.C02
 open Micromap SetAlg Dict Refine
@@ -221,18 +222,6 @@ theorem step_ledger (hv : E.vGlue = true) (w : Obj K V → Nat) (cap : Nat) (l :
         Ledger.wpairs w l' + Ledger.wsum w back + Ledger.wsum w (Ledger.droppedOf tr)
     | .overflow tr => Ledger.wsum w op.inObjs = Ledger.wsum w (Ledger.droppedOf tr) :=
   Ledger.lstep_conserves E hv w cap l op (fun _ _ hf => Ledger.findKey_lt E hf)
-
-/-- The full-strength ledger statement over the WHOLE operation language (not proved as one theorem;
-    `history_ledger` above proves it for the owning dictionary operations): after every history the
-    objects created so far are, as a multiset, exactly those stored in live slots of the
-    registers, those handed to the caller, those in the drop log (each once), and those leaked. -/
-def C02_ledger_full : Prop :=
-  ∀ (E : Env K V Q) (R : Render K V) (capM capS : Nat → Nat) (w : World K V Q) (ops : List (Op K V Q)),
-    (∀ op, op ∈ ops → op.safeApi = true) → Benign w →
-    ∃ held created : List (Obj K V),
-      let sys := (run E R (Sys.init capM capS w) ops).1
-      (liveObjs (sys.maps 0) (sys.maps 0).cap ++ liveObjs (sys.maps 1) (sys.maps 1).cap ++ held ++
-        sys.w.leaked).Perm created
 
 /-! ### (3') the ledger over histories of every safe single-register operation -/
 
@@ -429,5 +418,294 @@ example (w : Obj Nat Nat → Nat) : ∀ op ∈ ([.insert 1 10, .drain 0 true, .i
 
 
 end Ledger2
+
+/-! ### (3'') the system-level ledger
+
+C02 (3''), the SYSTEM-LEVEL LEDGER — "each element is destroyed exactly once unless it was handed to
+the caller or forgotten", over the model's real transition function `Micromap.step` / `Micromap.run`
+and the whole safe operation language `Op` with its four registers (`maps 0/1`, `sets 0/1`):
+every `MapOp` on a map register, every `SetOp` on a set register, every `Map<K, (), N>` operation on a
+set register (`umap`), the operations that involve a second or a scratch register (`clone_to`,
+`from_iter`, `eq`, `serde`, the lazy set algebra `alg`, `is_subset` / `is_superset` / `is_disjoint`,
+`&a - &b`, `extend`), fault injection (`inject`) and the final drop of all registers (`endCase`).
+
+ACCOUNTING CONVENTIONS (all definitions are in `Proofs/OwnAlg.lean`, `Proofs/OwnSys.lean`).
+* `sysLive w sys`: the weight of ALL ghost-live slots of the four registers (`Own.live`: stored
+  entries and unreachable slots at or beyond `len`); a set register holds only keys (`wU w`: the
+  unit values carry no object).
+* `Op.inObjs op` ("passed in"): every key and value object the operation text carries — arguments of
+  the inserts, the lists of `from_iter` / `extend`, the key of an entry chain and the value of its
+  terminal.  For `umap` only the keys; the three `umap` operations that `stepCore` does not execute
+  (`clone_to`, `from_iter`, `serde`) carry nothing.
+* "created": `Own.createdOf out.events`, the results of the `clone` callbacks of the step, PLUS the
+  decode results `dec` of a `serde` step: `decodeK` / `decodeV` (the element types' `deserialize`)
+  return a fresh object and log NO event, so they are not in `createdOf` (which is kept as it is);
+  they are pinned down by `Op.DecOf` / `OwnSys.DecOf`: one key and one value object per entry of a
+  PREFIX of the serialized source register (`Raw.abs`) — of all entries when the step returned —,
+  with exactly the identities the model gives them: `E.clK n k`, `E.clV (n + 1) v` (`v` itself without
+  drop glue), `n` = the fresh-object counter `World.nextId` at the start of the step, advancing by 2
+  (1) per entry.  `dec = []` for every other operation.
+* `Op.owned op out.ret` ("handed back"): the keys, values and pairs of the returned value tree that
+  are NOT under a `ref` / `oref` constructor (`RV.owned`: `remove` returns an owned value, `get` a
+  reference, drained / consumed items are owned, iterator and set-algebra items are references),
+  EXCEPT for entry chains, where it is `Own.finBack` read off the result `[tag "occ"/"vac", r]`
+  (`entryOwned`; `uEntryOwned` after the cast for `umap`): the terminals `key`, `OccupiedEntry::key`,
+  `VacantEntry::key` return the key BY REFERENCE in Rust, but the model renders it as a bare `.key k`
+  (a vacant entry has no slot to refer to) — it is NOT owned; and a value passed to a terminal that
+  does not consume it (`or_insert_with(|| v)` on an occupied entry — the closure is not run —,
+  `occ_insert v` on a vacant entry, …) stays with the caller: it counts as handed back.
+  A step that unwinds shows `ret = unit`: it hands nothing back.
+* "dropped": `Ledger.droppedOf out.events`, the drop log of the step (`Out.events` is per step).
+* "leaked": the suffix `lk` that `World.leaked` grew by.  After `endCase` every register is a fresh
+  `new()`, so `sysLive = 0`, nothing is unreachable, and the step's `Out.leaks`
+  (`World.leaked ++ allGarbage`) is exactly `World.leaked`.
+* `Op.WOk w op`: the weighting does not tell `g v` from `v` for the functions `g` the operation writes
+  through `&mut V` (`Own.HV E w`: values have drop glue, or the weighting does not see values).
+
+EXCLUDED: the two `unsafe fn`s (`insert_unchecked`, `get_disjoint_unchecked_mut`: `Op.safeApi`), and
+operations that name a register other than the `nRegs = 2` registers of each kind that `endCase`
+drops (`Op.regsOk`, defined through the model's `touched`): the ledger counts four registers.
+After an INJECTED panic (a user callback panicked) nothing is claimed about that step.
+-/
+
+section SysLedger
+open Ledger Own OwnSys
+
+/-- **One step of the system conserves objects.**  For `Micromap.step` on every safe operation over
+    the existing registers, ANY user equality, ANY world (armed injections included), either
+    profile, from any state that satisfies the invariant, and every weighting `w` admissible for the
+    in-place writes of the operation: the step does not reach `ub`, keeps the invariant, and
+
+    * if it returns:
+      `live + passed in + created (+ decoded) = live' + handed back + dropped + leaked`;
+    * if it unwinds with class `c`: either `c = inject` and an injection was armed, or the same
+      equation holds with nothing handed back (`out.ret = unit`) — the container's own panics
+      (overflow, `index` of an absent key, overlapping keys, capacity mismatch) balance exactly. -/
+theorem step_ledger_sys (w : Obj K V → Nat) (hv : HV E w) {sys : Sys K V Q} (hs : SysInv E sys) (op : Op K V Q)
+    (hsafe : op.safeApi = true) (hreg : op.regsOk = true) (hop : op.WOk w) :
+    (step E R sys op).2.outcome ≠ .ub ∧ SysInv E (step E R sys op).1 ∧
+    ((step E R sys op).2.outcome = .ok →
+      ∃ lk dec, (step E R sys op).1.w.leaked = sys.w.leaked ++ lk ∧ op.DecOf E sys true dec ∧
+        sysLive w sys + wsum w op.inObjs + wsum w (createdOf (step E R sys op).2.events) + wsum w dec =
+          sysLive w (step E R sys op).1 + wsum w (op.owned (step E R sys op).2.ret) +
+            wsum w (droppedOf (step E R sys op).2.events) + wsum w lk) ∧
+    (∀ c, (step E R sys op).2.outcome = .panic c → (c = .inject ∧ sys.w.inject ≠ none) ∨
+      ∃ lk dec, (step E R sys op).1.w.leaked = sys.w.leaked ++ lk ∧ op.DecOf E sys false dec ∧
+        (step E R sys op).2.ret = .unit ∧
+        sysLive w sys + wsum w op.inObjs + wsum w (createdOf (step E R sys op).2.events) + wsum w dec =
+          sysLive w (step E R sys op).1 + wsum w (droppedOf (step E R sys op).2.events) + wsum w lk) := by
+  obtain ⟨h1, h2, h3⟩ := step_scons (w := w) E hv R hs op hsafe hreg hop
+  refine ⟨h1, h2, ?_, ?_⟩
+  · intro hok
+    rcases h3 with ⟨hp, _⟩ | ⟨lk, dec, hl, hd, he⟩
+    · rw [hok] at hp; cases hp
+    · rw [hok] at hd
+      exact ⟨lk, dec, hl, hd, he⟩
+  · intro c hc
+    rcases h3 with ⟨hp, ha⟩ | ⟨lk, dec, hl, hd, he⟩
+    · rw [hc] at hp
+      injection hp with hp
+      exact Or.inl ⟨hp, ha⟩
+    · rw [hc] at hd
+      have hret := step_ret_panic E R sys op hc
+      refine Or.inr ⟨lk, dec, hl, hd, hret, ?_⟩
+      unfold StepEq at he
+      rw [hret, Op.owned_unit] at he
+      omega
+
+/-- **The ledger over every history** (no injection: every step balances exactly).  From `new()`
+    registers of any capacities, a world in which no fault is armed, ANY user equality, for every list
+    of safe operations (none of them `inject`) over the existing registers and every weighting
+    admissible for their in-place writes: no step reaches `ub`, and
+
+        Σ w(passed in) + Σ w(created) + Σ w(decoded)
+          = sysLive w (final state) + Σ w(handed back) + Σ w(dropped) + Σ w(leaked)
+
+    summed over all steps (`runIn`, `runCreated`, `runOwned`, `runDropped`; `DecRun`: the decode results
+    of the `serde` steps; `lk`: what `World.leaked` grew by).  With `w` the indicator of one object:
+    an object passed in or created once is, at the end, in exactly one place — a live slot, the
+    caller's hands, the drop log (once), or the leak list. -/
+theorem run_ledger (capM capS : Nat → Nat) (w0 : World K V Q) (hb : Benign w0) (ops : List (Op K V Q))
+    (w : Obj K V → Nat) (hv : HV E w)
+    (hops : ∀ op ∈ ops, op.safeApi = true ∧ op.regsOk = true ∧ op.WOk w ∧ ∀ j, op ≠ .inject j) :
+    (∀ o ∈ (run E R (Sys.init capM capS w0) ops).2, o.outcome ≠ .ub) ∧
+    ∃ lk dec, (run E R (Sys.init capM capS w0) ops).1.w.leaked = w0.leaked ++ lk ∧
+      DecRun E R (Sys.init capM capS w0) ops dec ∧
+      wsum w (runIn ops) + wsum w (runCreated (run E R (Sys.init capM capS w0) ops).2) + wsum w dec =
+        sysLive w (run E R (Sys.init capM capS w0) ops).1 +
+          wsum w (runOwned ops (run E R (Sys.init capM capS w0) ops).2) +
+          wsum w (runDropped (run E R (Sys.init capM capS w0) ops).2) + wsum w lk := by
+  have hs := SysInv.init E capM capS w0
+  refine ⟨(run_inv E R ops _ hs (fun op ho => (hops op ho).1)).1, ?_⟩
+  rcases run_bal (w := w) E hv R ops _ hs (fun op ho => ⟨(hops op ho).1, (hops op ho).2.1, (hops op ho).2.2.1⟩) with
+    hinj | ⟨lk, dec, hl, hd, he⟩
+  · exact absurd hinj (not_injectedRun E R ops _ hs hb.1 (fun op ho => ⟨(hops op ho).1, (hops op ho).2.2.2⟩))
+  · refine ⟨lk, dec, hl, hd, ?_⟩
+    unfold RunEq at he
+    rw [sysLive_init] at he
+    omega
+
+/-- … with injections allowed (any world, `inject` operations in the history): either some step
+    unwound from an injected panic (then nothing is claimed), or the same equation holds. -/
+theorem run_ledger_inj (capM capS : Nat → Nat) (w0 : World K V Q) (ops : List (Op K V Q))
+    (w : Obj K V → Nat) (hv : HV E w) (hops : ∀ op ∈ ops, op.safeApi = true ∧ op.regsOk = true ∧ op.WOk w) :
+    (∃ o ∈ (run E R (Sys.init capM capS w0) ops).2, o.outcome = .panic .inject) ∨
+    ∃ lk dec, (run E R (Sys.init capM capS w0) ops).1.w.leaked = w0.leaked ++ lk ∧
+      DecRun E R (Sys.init capM capS w0) ops dec ∧
+      wsum w (runIn ops) + wsum w (runCreated (run E R (Sys.init capM capS w0) ops).2) + wsum w dec =
+        sysLive w (run E R (Sys.init capM capS w0) ops).1 +
+          wsum w (runOwned ops (run E R (Sys.init capM capS w0) ops).2) +
+          wsum w (runDropped (run E R (Sys.init capM capS w0) ops).2) + wsum w lk := by
+  have hs := SysInv.init E capM capS w0
+  rcases run_bal (w := w) E hv R ops _ hs hops with hinj | ⟨lk, dec, hl, hd, he⟩
+  · exact Or.inl (injectedRun_out E R ops _ hinj)
+  · refine Or.inr ⟨lk, dec, hl, hd, ?_⟩
+    unfold RunEq at he
+    rw [sysLive_init] at he
+    omega
+
+theorem endCase_ok (w : Obj K V → Nat) : (Op.endCase : Op K V Q).safeApi = true ∧ (Op.endCase : Op K V Q).regsOk = true ∧
+    (Op.endCase : Op K V Q).WOk w ∧ ∀ j, (Op.endCase : Op K V Q) ≠ .inject j :=
+  ⟨rfl, rfl, trivial, fun _ h => by cases h⟩
+
+/-- **Each element is destroyed exactly once unless it was handed to the caller or forgotten.**
+    The history of `run_ledger` followed by `endCase` (the drop of every register): the last step
+    returns, the registers are empty afterwards (`sysLive = 0`), so EVERYTHING passed in, created or
+    decoded during the history was handed back, dropped (it is in the drop log of some step, once),
+    or is listed in the last step's `Out.leaks` (= `World.leaked ++ allGarbage` = everything ever
+    leaked: forgotten containers, iterators and drains, values lost when a `Drop` unwinds, slots
+    overwritten while live). -/
+theorem run_and_drop_ledger (capM capS : Nat → Nat) (w0 : World K V Q) (hb : Benign w0) (ops : List (Op K V Q))
+    (w : Obj K V → Nat) (hv : HV E w)
+    (hops : ∀ op ∈ ops, op.safeApi = true ∧ op.regsOk = true ∧ op.WOk w ∧ ∀ j, op ≠ .inject j) :
+    (∀ o ∈ (run E R (Sys.init capM capS w0) (ops ++ [.endCase])).2, o.outcome ≠ .ub) ∧
+    ∃ last lk dec, (run E R (Sys.init capM capS w0) (ops ++ [.endCase])).2.getLast? = some last ∧
+      last.outcome = .ok ∧ last.leaks = w0.leaked ++ lk ∧
+      sysLive w (run E R (Sys.init capM capS w0) (ops ++ [.endCase])).1 = 0 ∧
+      DecRun E R (Sys.init capM capS w0) (ops ++ [.endCase]) dec ∧
+      wsum w (runIn (ops ++ [.endCase])) + wsum w (runCreated (run E R (Sys.init capM capS w0) (ops ++ [.endCase])).2) +
+          wsum w dec =
+        wsum w (runOwned (ops ++ [.endCase]) (run E R (Sys.init capM capS w0) (ops ++ [.endCase])).2) +
+          wsum w (runDropped (run E R (Sys.init capM capS w0) (ops ++ [.endCase])).2) + wsum w lk := by
+  have hops' : ∀ op ∈ ops ++ [Op.endCase], op.safeApi = true ∧ op.regsOk = true ∧ op.WOk w ∧ ∀ j, op ≠ .inject j := by
+    intro op ho
+    rcases List.mem_append.mp ho with h | h
+    · exact hops op h
+    · have : op = .endCase := by simpa using h
+      subst this
+      exact endCase_ok w
+  obtain ⟨hub, lk, dec, hl, hd, he⟩ := run_ledger E R capM capS w0 hb (ops ++ [.endCase]) w hv hops'
+  refine ⟨hub, ?_⟩
+  obtain ⟨e1, e2⟩ := run_append E R ops [.endCase] (Sys.init capM capS w0)
+  have hs1 : SysInv E (run E R (Sys.init capM capS w0) ops).1 :=
+    (run_inv E R ops _ (SysInv.init E capM capS w0) (fun op ho => (hops op ho).1)).2
+  obtain ⟨g1, _, g3, g4, _, _⟩ := step_endCase (w := w) E hv R hs1
+  have hfin : (run E R (Sys.init capM capS w0) (ops ++ [.endCase])).1 =
+      (step E R (run E R (Sys.init capM capS w0) ops).1 .endCase).1 := by rw [e1]; rfl
+  refine ⟨(step E R (run E R (Sys.init capM capS w0) ops).1 .endCase).2, lk, dec, ?_, g1, ?_, ?_, hd, ?_⟩
+  · rw [e2, show (run E R (run E R (Sys.init capM capS w0) ops).1 [Op.endCase]).2 =
+        [(step E R (run E R (Sys.init capM capS w0) ops).1 Op.endCase).2] from rfl]
+    exact List.getLast?_concat ..
+  · rw [g4, ← hfin, hl]
+  · rw [hfin]; exact g3
+  · rw [hfin, g3] at he
+    omega
+
+/-- … with injections allowed: `endCase` disarms the fault before it drops, so the last step always
+    returns and empties the registers; either some earlier step unwound from an injected panic, or
+    the equation of `run_and_drop_ledger` holds. -/
+theorem run_and_drop_ledger_inj (capM capS : Nat → Nat) (w0 : World K V Q) (ops : List (Op K V Q))
+    (w : Obj K V → Nat) (hv : HV E w) (hops : ∀ op ∈ ops, op.safeApi = true ∧ op.regsOk = true ∧ op.WOk w) :
+    sysLive w (run E R (Sys.init capM capS w0) (ops ++ [.endCase])).1 = 0 ∧
+    ((∃ o ∈ (run E R (Sys.init capM capS w0) (ops ++ [.endCase])).2, o.outcome = .panic .inject) ∨
+    ∃ lk dec, (run E R (Sys.init capM capS w0) (ops ++ [.endCase])).1.w.leaked = w0.leaked ++ lk ∧
+      DecRun E R (Sys.init capM capS w0) (ops ++ [.endCase]) dec ∧
+      wsum w (runIn (ops ++ [.endCase])) + wsum w (runCreated (run E R (Sys.init capM capS w0) (ops ++ [.endCase])).2) +
+          wsum w dec =
+        wsum w (runOwned (ops ++ [.endCase]) (run E R (Sys.init capM capS w0) (ops ++ [.endCase])).2) +
+          wsum w (runDropped (run E R (Sys.init capM capS w0) (ops ++ [.endCase])).2) + wsum w lk) := by
+  have hops' : ∀ op ∈ ops ++ [Op.endCase], op.safeApi = true ∧ op.regsOk = true ∧ op.WOk w := by
+    intro op ho
+    rcases List.mem_append.mp ho with h | h
+    · exact hops op h
+    · have : op = .endCase := by simpa using h
+      subst this
+      exact ⟨rfl, rfl, trivial⟩
+  obtain ⟨e1, _⟩ := run_append E R ops [.endCase] (Sys.init capM capS w0)
+  have hs1 : SysInv E (run E R (Sys.init capM capS w0) ops).1 :=
+    (run_inv E R ops _ (SysInv.init E capM capS w0) (fun op ho => (hops op ho).1)).2
+  obtain ⟨_, _, g3, _, _, _⟩ := step_endCase (w := w) E hv R hs1
+  have hfin : (run E R (Sys.init capM capS w0) (ops ++ [.endCase])).1 =
+      (step E R (run E R (Sys.init capM capS w0) ops).1 .endCase).1 := by rw [e1]; rfl
+  refine ⟨by rw [hfin]; exact g3, ?_⟩
+  rcases run_ledger_inj E R capM capS w0 (ops ++ [.endCase]) w hv hops' with h | ⟨lk, dec, hl, hd, he⟩
+  · exact Or.inl h
+  · refine Or.inr ⟨lk, dec, hl, hd, ?_⟩
+    rw [hfin, g3] at he
+    omega
+
+/-! ### the operation language contains the multi-register operations; a concrete run balances -/
+
+example : (Op.map 0 (.clone_to 1) : Op K V Q).safeApi = true := rfl
+example : (Op.map 0 (.eq 1) : Op K V Q).safeApi = true := rfl
+example : (Op.map 0 (.serde 1) : Op K V Q).safeApi = true := rfl
+example (xs : List (K × V)) : (Op.map 1 (.from_iter true xs) : Op K V Q).safeApi = true := rfl
+example : (Op.set 0 (.alg .symmetric_difference 1 [.next, .clone, .fold]) : Op K V Q).safeApi = true := rfl
+example : (Op.set 0 (.sub 1 0) : Op K V Q).safeApi = true := rfl
+example : (Op.set 1 (.serde 0) : Op K V Q).safeApi = true := rfl
+example (k : K) : (Op.umap 0 (.entry k [] .occ_remove_entry) : Op K V Q).safeApi = true := rfl
+example : (Op.map 0 (.clone_to 1) : Op K V Q).regsOk = true := rfl
+example : (Op.set 0 (.sub 1 0) : Op K V Q).regsOk = true := rfl
+example : (Op.map 0 (.clone_to 2) : Op K V Q).regsOk = false := rfl
+
+/-- `u64` keys and values with the derived `==`; `clone` and `deserialize` make objects with fresh
+    identities (`+ 1000 · (id + 1)`). -/
+def sysEnv0 : Env Nat Nat Nat :=
+  { eqK := fun _ a b => a == b, eqQ := fun _ a b => a == b, eqV := fun a b => a == b, borrow := id,
+    clK := fun n k => k + 1000 * (n + 1), clV := fun n v => v + 1000 * (n + 1) }
+
+def sysR0 : Render Nat Nat :=
+  { dbgK := fun _ _ => "", dbgV := fun _ _ => "", dspK := fun _ => "", dspV := fun _ => "" }
+
+/-- a history over three of the four registers: an insert, a clone into `maps 1`, `==` of the two
+    maps, a `remove` in the clone, `from_iter` with a duplicate into `sets 1`, `&sets 1 - &sets 0`
+    assigned to `sets 0`, a serde round trip of `maps 0` into `maps 1` (whose old content is dropped), a
+    `drain` of `maps 1` that yields nothing and is FORGOTTEN, `endCase`. -/
+def sysOps0 : List (Op Nat Nat Nat) :=
+  [.map 0 (.insert 1 10), .map 0 (.clone_to 1), .map 0 (.eq 1), .map 1 (.remove (.key 1001)),
+   .set 1 (.from_iter false [5, 6, 5]), .set 1 (.sub 0 0), .map 0 (.serde 1), .map 1 (.drain 0 true), .endCase]
+
+example : ∀ op ∈ sysOps0, op.safeApi = true ∧ op.regsOk = true := by decide
+
+/-- what `Op.DecOf` says: with the id counter at 4, decoding the entry `(1, 10)` creates the key with
+    id 4 and the value with id 5. -/
+example : OwnSys.DecOf sysEnv0 true 4 [(1, 10)] [.k (sysEnv0.clK 4 1), .v (sysEnv0.clV 5 10)] :=
+  .cons true 4 1 10 (.done true _)
+
+/-- the history writes nothing in place: EVERY weighting is admissible (`Op.WOk_of_noWrite`). -/
+example (w : Obj Nat Nat → Nat) : ∀ op ∈ sysOps0, op.WOk w := by
+  intro op hop
+  apply Op.WOk_of_noWrite
+  simp only [sysOps0, List.mem_cons, List.mem_nil_iff, or_false] at hop
+  rcases hop with rfl | rfl | rfl | rfl | rfl | rfl | rfl | rfl | rfl <;> exact trivial
+
+/-- a weighting by the identity of keys is admissible for operations that write through `&mut V`. -/
+example : (Op.map 0 (.entry 1 [(· + 1)] (.occ_get_mut (· * 2))) : Op Nat Nat Nat).WOk
+    (fun o => match o with | .k k => k + 1 | .v _ => 0) := by
+  simp [Op.WOk, MapOp.WOk, Own.finWOk]
+
+/-- the numbers of the ledger for that history, every object counting 1. -/
+def sysNumbers0 : List Nat :=
+  let r := run sysEnv0 sysR0 (Sys.init (fun _ => 1) (fun _ => 2) {}) sysOps0
+  [sysLive (fun _ => 1) r.1, (runIn sysOps0).length, (runCreated r.2).length, r.1.w.nextId,
+    (runOwned sysOps0 r.2).length, (runDropped r.2).length, r.1.w.leaked.length]
+
+/-- 5 objects passed in, 4 cloned, 2 decoded (the id counter ends at 6 = 4 + 2); no live slot at the
+    end, 1 handed back (the removed value), 8 dropped, 2 leaked (the pair the forgotten `Drain` left
+    behind, unreachable until `endCase` forgets it): 5 + 4 + 2 = 0 + 1 + 8 + 2. -/
+example : sysNumbers0 = [0, 5, 4, 6, 1, 8, 2] := by decide +kernel
+
+
+end SysLedger
 
 end Micromap.Props.C02
